@@ -238,7 +238,8 @@ def check_sched(prop, tier, seed, scale=1.0):
     per_variant = {}
     for v in variants:
         C.build_sched(v)
-        r = C.run_batch("sched", v, seed, tag, "sched", runs, 0, extra_args=["--per-prog", str(per_prog)])
+        # the debug build of the shuttle runtime is ~10x slower: a tenth of the executions there
+        r = C.run_batch("sched", v, seed, tag + (0 if v == "vrelease" else 5000), "sched", runs if v == "vrelease" else max(1000, runs // 10), 0, extra_args=["--per-prog", str(per_prog)])
         found += [(v, rec) for rec in r["violations"]]
         sums += r["summaries"]
         crashes += r["crashes"]
